@@ -364,7 +364,14 @@ func (i *Interpreter) Exec(ctx context.Context, bs match.Bindings, props core.St
 		result = vv
 	case nil:
 	default:
-		return nil, fmt.Errorf("%#v (%T) isn't Bindings", x, x)
+		// The value comes from the script and can contain
+		// itself (var a = []; a[0] = a), in which case fmt's
+		// %#v never returns.  The JSON encoder stops at cycles.
+		js, err := json.Marshal(x)
+		if err != nil {
+			js = []byte("unprintable value")
+		}
+		return nil, fmt.Errorf("%s (%T) isn't Bindings", js, x)
 	}
 	exe.Bs = result
 
